@@ -23,54 +23,6 @@ theorem eval_not (ρ : Env) (e : BExp) : BExp.eval ρ (.not e) = !BExp.eval ρ e
 theorem eval_and (ρ : Env) (a b : BExp) : BExp.eval ρ (.and a b) = (BExp.eval ρ a && BExp.eval ρ b) := rfl
 theorem eval_or (ρ : Env) (a b : BExp) : BExp.eval ρ (.or a b) = (BExp.eval ρ a || BExp.eval ρ b) := rfl
 
-/-! ## the generated table, evaluated -/
-
-theorem d_run_if0 : decision "peer.run" "if" 0 = .atom "p.inHoldDown" := by decide
-theorem d_run_if1 : decision "peer.run" "if" 1 =
-    .or (.cmp "!=" "p.fsms[in]" "nil") (.cmp "==" "p.fsmState[out]" "establishedState") := by decide
-
-theorem d_h_c0 : decision "peer.handleStateTransition" "case" 0 = .cmp "==" "t.to" "establishedState" := by decide
-theorem d_h_c1 : decision "peer.handleStateTransition" "case" 1 =
-    .and (.cmp "==" "i" "in") (.cmp "<" "t.to" "t.from") := by decide
-theorem d_h_c2 : decision "peer.handleStateTransition" "case" 2 = .cmp "==" "t.to" "openConfirmState" := by decide
-theorem d_h_c3 : decision "peer.handleStateTransition" "case" 3 =
-    .cmp "==" "p.fsmState[other(i)]" "establishedState" := by decide
-theorem d_h_c4 : decision "peer.handleStateTransition" "case" 4 =
-    .cmp "==" "p.fsmState[other(i)]" "openConfirmState" := by decide
-theorem d_h_i0 : decision "peer.handleStateTransition" "if" 0 =
-    .or (.and (.atom "dominant") (.cmp "==" "i" "out")) (.and (.not (.atom "dominant")) (.cmp "==" "i" "in")) := by
-  decide
-theorem d_h_dom : decision "peer.handleStateTransition" "assign:dominant" 0 =
-    .or (.cmp ">" "localID" "remoteID")
-      (.and (.cmp "==" "localID" "remoteID") (.cmp ">" "p.config.LocalAS" "p.config.RemoteAS")) := by decide
-
-theorem d_en0 : decision "peer.enableFSM" "if" 0 = .and (.cmp "==" "i" "out") (.atom "p.options.passive") := by decide
-theorem d_en1 : decision "peer.enableFSM" "if" 1 = .cmp "==" "p.fsms[i]" "nil" := by decide
-theorem d_dis0 : decision "peer.disableFSM" "if" 0 = .cmp "==" "p.fsms[i]" "nil" := by decide
-
-theorem d_he0 : decision "peer.handleError" "if" 0 = .atom "errors.As(err,&nerr)" := by decide
-theorem d_damp : decision "notificationError.dampPeer" "return" 0 =
-    .cmp "!=" "n.notification.Code" "NOTIF_CODE_CEASE" := by decide
-
-theorem d_sd0 : decision "peer.updateStartupDelay" "if" 0 =
-    .and (.cmp "!=" "p.lastProtoError" "nil") (.cmp ">=" "time.Since(*p.lastProtoError)" "errorAmnesiaTime") := by
-  decide
-theorem d_sd1 : decision "peer.updateStartupDelay" "if" 1 = .cmp ">" "p.startupDelay" "0" := by decide
-
-theorem d_ov0 : decision "peerOptions.validate" "if" 0 =
-    .and (.cmp "<" "p.holdTime" "time.Second*3") (.cmp "!=" "p.holdTime" "0") := by decide
-theorem d_ov1 : decision "peerOptions.validate" "if" 1 = .or (.cmp "<" "p.port" "1") (.cmp ">" "p.port" "65535") := by
-  decide
-
-theorem d_cv0 : decision "PeerConfig.validate" "if" 0 = .or (.cmp "==" "p.LocalAS" "0") (.cmp "==" "p.RemoteAS" "0") := by
-  decide
-theorem d_cv1 : decision "PeerConfig.validate" "if" 1 =
-    .and (.not (.atom "opts.localAddress.IsValid()")) (.atom "p.RemoteAddress.IsValid()") := by decide
-theorem d_cv2 : decision "PeerConfig.validate" "if" 2 = .cmp "!=" "localIsIPv4" "remoteIsIPv4" := by decide
-theorem d_cv3 : decision "PeerConfig.validate" "if" 3 = .not (.atom "localIsIPv4") := by decide
-theorem d_cv4 : decision "PeerConfig.validate" "if" 4 =
-    .or (.not (.atom "opts.localAddress.Is6()")) (.not (.atom "p.RemoteAddress.Is6()")) := by decide
-
 /-! ## `b2i`, casts -/
 
 theorem b2i_ne_zero (b : Bool) : (b2i b != 0) = b := by cases b <;> rfl
